@@ -413,6 +413,7 @@ int parsec_cmd_line_parse(parsec_cmd_line_t *cmd, bool ignore_unknown,
                             }
                             if (NULL != param->clp_argv) {
                                 parsec_argv_free(param->clp_argv);
+                                param->clp_argv = NULL;  /* the destructor frees it otherwise */
                             }
                             PARSEC_OBJ_RELEASE(param);
                             printed_error = true;
